@@ -26,6 +26,8 @@ pub mod c20;
 pub mod c14b;
 pub mod c11d;
 pub mod c02d;
+pub mod quic;
+pub mod cq;
 
 thread_local! {
     static EXPECT_PANIC: Cell<bool> = const { Cell::new(false) };
@@ -109,8 +111,10 @@ pub fn replay(id: &str, file: &serde_json::Value) -> i32 {
             return 2;
         }
     };
-    let a = f(case);
-    let b = f(case);
+    // the QUIC scenarios are shared by several properties
+    let g = |c: &serde_json::Value| cq::replay(c).unwrap_or_else(|| f(c));
+    let a = g(case);
+    let b = g(case);
     let sa = a.as_ref().err().map(|v| v.signature.clone());
     let sb = b.as_ref().err().map(|v| v.signature.clone());
     if sa != sb {
